@@ -22,7 +22,7 @@ pub const IDS: &[&str] = &["C01", "C02", "C03", "C04", "C05", "C06", "C07", "C08
 /// Committed regression replays (/verif/regressions/<ID>-*.json): shrunk failing cases of
 /// defects found earlier; re-run first, bypassing the generators.
 fn regressions(prop: &str) -> (u64, Vec<String>) {
-    let dir = format!("{}/regressions", crate::runner::VERIF_DIR);
+    let dir = format!("{}/regressions", crate::runner::verif_dir());
     let mut n = 0;
     let mut failed = vec![];
     let mut files: Vec<_> = std::fs::read_dir(&dir)
